@@ -18,7 +18,7 @@ Protocol lines of area `tsprops` (self-contained: programs + interleaving on one
     route   := H <op>* <outcome> | NF <line> <text> | NA <line> <text> <allow> | BP <line>
     op      := path | method | query <k> | cookie <k> | header <name> <wsgikey> | envget <k> | body
              | form <k> | file <name> <field> | url | kwargs | urlargs | scookie <k> | dump <what> | mutate <what>
-             | envset <k> <v> | extset <name> <v> | extget <name> | whoami | status <code> <line> | rdstatus | sethdr <k> <v> | addhdr <k> <v>
+             | envset <k> <v> | reqset <k> <v> | extset <name> <v> | extget <name> | whoami | status <code> <line> | rdstatus | sethdr <k> <v> | addhdr <k> <v>
              | rdhdr <k> | setcookie <k> <rendered> | ctype <v> | copy | cpath <n> | cset <n> <k> <v>
              | cheader <n> <name> <wsgikey>
              | nested <req> | construct <app>
@@ -111,6 +111,7 @@ mutual
     | "envset" :: k :: v :: r => some (.envSet (str k) (str v), r)
     | "extset" :: k :: v :: r => some (.extSet (str k) (str v), r)
     | "extget" :: k :: r => some (.extGet (str k), r)
+    | "reqset" :: k :: v :: r => some (.reqSet (str k) (str v), r)
     | "whoami" :: r => some (.whoami, r)
     | "kwargs" :: r => some (.kwargs, r)
     | "urlargs" :: r => some (.urlArgs, r)
